@@ -429,6 +429,8 @@ from . import casts
 
 from . import mustcall
 
+from . import vocab
+
 OBLIGATIONS = [
     ('C14.O1', 'totality of decode', 'no open panic-capable site and no unreviewed external callee in the call-graph closure of '
      'compression::decode; every site is discharged by analysis (no review entries): every byte string yields Ok or Err.', o1),
@@ -443,4 +445,5 @@ OBLIGATIONS = [
     ('C14.O5', 'record-local state', 'each codec loop (rle_decode, delta_decode, delta_encode) handles one record per iteration; loop-carried-state analysis (liveness at the loop header) shows that only buffers, iterators, the reference input and a position in the input survive from one record to the next (a scalar that feeds nothing but comparisons and its own update -- a budget -- is allowed): no scalar accumulator (varint shift, value, flag) leaks into the next record.', o5),
     ('C14.C', 'lossy integer casts', 'every sign-changing cast (signed -> unsigned; NULL_FRAME is -1) and every narrowing cast to < 32 bits or from 128 bits in the crate is in range by a dominating guard, by the shape of its operand, or listed with a reason in tables/casts.json; see rules/casts.py', casts.rule),
     ('C14.M', 'must-call floor', 'the calls listed for this property in tables/must_call.json are made on every path from the entry of their function to a normal return (interprocedural must-call): a new early return, fast path or extra condition in front of one of them is reported; see rules/mustcall.py', mustcall.rule_for('C14')),
+    ('C14.V', 'no unreviewed condition in the pinned helpers', 'for each helper whose body this property\'s rules pin (tables/condition_terms.json), the terms its path conditions are built from (fields, parameters, call results -- no constants, operators or local names) are a subset of the reviewed vocabulary: one more `if` in front of a pinned result (a lock that may time out, "only while an endpoint is running") is reported; see rules/vocab.py', vocab.rule_for('C14')),
 ]
